@@ -164,13 +164,13 @@ theorem lexAll_dents {cfg : Cfg} (hs : cfg.up.Sane) (fuel : Nat) (st : LexState)
         simp only [hd', Bool.false_eq_true, if_false, List.map_append, e]
         exact dents_append N.1 (ih o.st _ _ _ S.2.2.2.1 _ N.2)
 
-theorem softKwGo_dents (ts : List Spanned) (sol : Bool) (ls : Bool) :
-    DentsAtLineStart ls ((softKwGo ts sol).map (·.tok)) ↔ DentsAtLineStart ls (ts.map (·.tok)) := by
-  induction ts generalizing sol ls with
+theorem softKwGo_dents (ts : List Spanned) (st : SoftSt) (ls : Bool) :
+    DentsAtLineStart ls ((softKwGo ts st).map (·.tok)) ↔ DentsAtLineStart ls (ts.map (·.tok)) := by
+  induction ts generalizing st ls with
   | nil => simp [softKwGo]
   | cons a ts ih =>
     simp only [softKwGo, List.map_cons, DentsAtLineStart]
-    rcases softTok_cases sol a ts with h | ⟨k, hk, h⟩
+    rcases softTok_cases st.sol st.sos a ts with h | ⟨k, hk, h⟩
     · rw [h, ih]
     · rw [h, hk, ih]; simp [lineStartStep]
 
